@@ -32,6 +32,8 @@ type c43Op struct {
 	T     *string  `json:"t"`
 	R     bool     `json:"r"`     // restricted
 	Perms []string `json:"perms"` // grant: "+ego.table.read" ...; auth: operations
+	Op    string   `json:"op"`    // row: read, insert, update, delete
+	Tx    string   `json:"tx"`    // row: "", "commit", "rollback" (inside a REST transaction)
 	SU    string   `json:"su"`    // auth: session user
 	SA    bool     `json:"sa"`    // auth: session admin
 }
@@ -102,6 +104,16 @@ func TestVerifC43(t *testing.T) {
 				if err := dsns.DSNService.WriteDSN(1, "root", defs.DSN{Name: c43s(o.D), Provider: defs.SqliteProvider, Database: dataFile, Restricted: o.R}); err != nil {
 					t.Fatalf("WriteDSN: %v", err)
 				}
+
+				// everybody may open the DSN: the table grants are what is being examined (GrantDSN turns a
+				// DSN into a restricted one, so it is only used on DSNs that are restricted anyway)
+				for _, u := range []string{"alice", "bob", "carol"} {
+					if !o.R {
+						break
+					}
+
+					_ = dsns.DSNService.GrantDSN(1, u, c43s(o.D), dsns.DSNReadAction|dsns.DSNWriteAction, true)
+				}
 			case "deldsn":
 				_ = dsns.DSNService.DeleteDSN(1, "root", c43s(o.D))
 				if _, err := DeletePermissionsByDSN(1, c43s(o.D)); err != nil {
@@ -148,6 +160,10 @@ func TestVerifC43(t *testing.T) {
 				s.URLParts = map[string]any{"dsn": c43s(o.D), "table": c43s(o.T)}
 				s.Parameters = map[string][]string{}
 				DeleteTable(&s, httptest.NewRecorder(), req)
+			case "row":
+				// a real row request through the real handler, stand-alone or inside a REST transaction
+				answers = append(answers, c43row(o))
+				store = append(store, c43store(o.SU, c43s(o.D), c43s(o.T), []string{"ego.table." + map[string]string{"read": "read", "insert": "write", "update": "update", "delete": "delete"}[o.Op]}))
 			case "auth":
 				s := &router.Session{ID: 2, User: o.SU, Admin: o.SA}
 				if Authorized(s, c43s(o.U), c43s(o.D)+"."+c43s(o.T), o.Perms...) {
@@ -156,40 +172,7 @@ func TestVerifC43(t *testing.T) {
 					answers = append(answers, 0)
 				}
 
-				// what the permission store records for exactly this key at this moment
-				cnt, allow := 0, 0
-
-				if initPermissions() {
-					items, err := pHandle.Read(pHandle.Equals("dsn", c43s(o.D)), pHandle.Equals("table", c43s(o.T)), pHandle.Equals("user", c43s(o.U)))
-					if err == nil {
-						for _, it := range items {
-							p := it.(*PermissionsObject)
-							cnt++
-
-							ok := true
-							for _, op := range o.Perms {
-								switch op {
-								case defs.TableReadPermission:
-									ok = ok && (p.Read || p.Admin)
-								case defs.TableWritePermission:
-									ok = ok && (p.Write || p.Admin)
-								case defs.TableUpdatePermission:
-									ok = ok && (p.Update || p.Admin)
-								case defs.TableDeletePermission:
-									ok = ok && (p.Delete || p.Admin)
-								default:
-									ok = ok && p.Admin
-								}
-							}
-
-							if ok {
-								allow++
-							}
-						}
-					}
-				}
-
-				store = append(store, [2]int{cnt, allow})
+				store = append(store, c43store(c43s(o.U), c43s(o.D), c43s(o.T), o.Perms))
 			default:
 				t.Fatalf("unknown op %q", o.K)
 			}
@@ -199,6 +182,130 @@ func TestVerifC43(t *testing.T) {
 		w.Write(b)
 		w.WriteString("\n")
 	}
+}
+
+// what the permission store records for exactly this key at this moment: rows, rows allowing all operations
+func c43store(user, dsn, table string, perms []string) [2]int {
+	cnt, allow := 0, 0
+
+	if !initPermissions() {
+		return [2]int{0, 0}
+	}
+
+	items, err := pHandle.Read(pHandle.Equals("dsn", dsn), pHandle.Equals("table", table), pHandle.Equals("user", user))
+	if err != nil {
+		return [2]int{0, 0}
+	}
+
+	for _, it := range items {
+		p := it.(*PermissionsObject)
+		cnt++
+
+		ok := true
+
+		for _, op := range perms {
+			switch op {
+			case defs.TableReadPermission:
+				ok = ok && (p.Read || p.Admin)
+			case defs.TableWritePermission:
+				ok = ok && (p.Write || p.Admin)
+			case defs.TableUpdatePermission:
+				ok = ok && (p.Update || p.Admin)
+			case defs.TableDeletePermission:
+				ok = ok && (p.Delete || p.Admin)
+			default:
+				ok = ok && p.Admin
+			}
+		}
+
+		if ok {
+			allow++
+		}
+	}
+
+	return [2]int{cnt, allow}
+}
+
+// c43row performs one row request with the real handler; 0 = refused with 403, 1 = passed the grant check
+// (whatever happened afterwards), 3 = the transaction could not be opened.
+func c43row(o c43Op) int {
+	d, tb := c43s(o.D), c43s(o.T)
+	params := map[string][]string{}
+	query := ""
+
+	mk := func() *router.Session {
+		return &router.Session{ID: 2, User: o.SU, Admin: o.SA, Permissions: []string{defs.LogonPermission},
+			URLParts: map[string]any{"dsn": d, "table": tb}, Parameters: params}
+	}
+
+	if o.Tx != "" {
+		req, _ := http.NewRequest(http.MethodPost, "/dsns/"+d+"/@begin", nil)
+		rr := httptest.NewRecorder()
+		s := mk()
+		s.URL = req.URL
+
+		if BeginHandler(s, rr, req) != http.StatusOK {
+			return 3
+		}
+
+		var tx defs.TransactionResponse
+		if err := json.Unmarshal(rr.Body.Bytes(), &tx); err != nil || tx.ID == "" {
+			return 3
+		}
+
+		params = map[string][]string{defs.TransactionIDParameterName: {tx.ID}}
+		query = defs.TransactionIDParameterName + "=" + tx.ID
+	}
+
+	path := "/dsns/" + d + "/tables/" + tb + "/rows"
+	status := 0
+	rr := httptest.NewRecorder()
+
+	switch o.Op {
+	case "read":
+		req, _ := http.NewRequest(http.MethodGet, path+"?"+query, nil)
+		s := mk()
+		s.URL = req.URL
+		status = ReadRows(s, rr, req)
+	case "insert":
+		req, _ := http.NewRequest(http.MethodPut, path+"?"+query, bytes.NewReader([]byte(`{"id": 7}`)))
+		s := mk()
+		s.URL = req.URL
+		status = InsertRows(s, rr, req)
+	case "update":
+		req, _ := http.NewRequest(http.MethodPatch, path+"?filter=EQ(id,7)&"+query, bytes.NewReader([]byte(`{"id": 8}`)))
+		s := mk()
+		s.URL = req.URL
+		status = UpdateRows(s, rr, req)
+	default:
+		req, _ := http.NewRequest(http.MethodDelete, path+"?filter=EQ(id,7)&"+query, nil)
+		s := mk()
+		s.URL = req.URL
+		status = DeleteRows(s, rr, req)
+	}
+
+	if o.Tx != "" {
+		end := "/@commit"
+		if o.Tx == "rollback" {
+			end = "/@rollback"
+		}
+
+		req, _ := http.NewRequest(http.MethodPost, "/dsns/"+d+end+"?"+query, nil)
+		s := mk()
+		s.URL = req.URL
+
+		if o.Tx == "rollback" {
+			RollbackHandler(s, httptest.NewRecorder(), req)
+		} else {
+			CommitHandler(s, httptest.NewRecorder(), req)
+		}
+	}
+
+	if status == http.StatusForbidden {
+		return 0
+	}
+
+	return 1
 }
 
 func itoa43(n int) string {
